@@ -774,6 +774,85 @@ var _ = fmt.Sprintf
 // globalWriters lists, per package-level variable of the module, the non-init functions that write
 // it (store, map update/delete on the loaded map, element store, or passing its address to a call
 // such as sync.Once.Do / atomic ops / Lock).
+// logOnceLatch: the package-level variable name is a sync.Once, every use is a Do call, and the functions it runs
+// store nothing outside their own locals (no field, global, map, slice element, channel): all they can do is call out
+// - in this code base, print a warning once.
+func (a *A) logOnceLatch(name string) bool {
+	var g *ssa.Global
+	for _, pkg := range a.Prog.AllPackages() {
+		if !a.inModule(pkg.Pkg) {
+			continue
+		}
+		for _, m := range pkg.Members {
+			if gl, ok := m.(*ssa.Global); ok && relPath(pkg.Pkg.Path())+"."+gl.Name() == name {
+				g = gl
+			}
+		}
+	}
+	if g == nil || !isNamedType(derefT(g.Type()), "sync", "Once") {
+		return false
+	}
+	uses, ok := 0, true
+	pure := func(f *ssa.Function) bool {
+		if f == nil || f.Blocks == nil {
+			return false
+		}
+		clean := true
+		allInstrs(f, func(in ssa.Instruction) {
+			switch x := in.(type) {
+			case *ssa.Store:
+				if _, local := x.Addr.(*ssa.Alloc); !local {
+					if ia, isIA := x.Addr.(*ssa.IndexAddr); isIA {
+						if sl, isSl := ia.X.(*ssa.Alloc); isSl && sl.Comment == "varargs" {
+							return
+						}
+					}
+					clean = false
+				}
+			case *ssa.MapUpdate, *ssa.Send, *ssa.Go:
+				clean = false
+			case ssa.CallInstruction:
+				if cal := x.Common().StaticCallee(); cal != nil && a.fnInModule(cal) {
+					if cal.Pkg == nil || !strings.HasSuffix(cal.Pkg.Pkg.Path(), "/logger") {
+						clean = false // calls back into the engine
+					}
+				}
+			}
+		})
+		return clean
+	}
+	for _, fn := range a.ModFuncs {
+		allInstrs(fn, func(in ssa.Instruction) {
+			used := false
+			for _, op := range in.Operands(nil) {
+				if *op == ssa.Value(g) {
+					used = true
+				}
+			}
+			if !used {
+				return
+			}
+			ci, isCall := in.(ssa.CallInstruction)
+			if !isCall || calleeFull(ci.Common()) != "(*sync.Once).Do" {
+				ok = false
+				return
+			}
+			uses++
+			var f *ssa.Function
+			switch y := ci.Common().Args[1].(type) {
+			case *ssa.MakeClosure:
+				f, _ = y.Fn.(*ssa.Function)
+			case *ssa.Function:
+				f = y
+			}
+			if !pure(f) {
+				ok = false
+			}
+		})
+	}
+	return ok && uses > 0
+}
+
 // exclusivePool: the package-level variable name (relPath.Name) is a sync.Pool, every use of it in the module is a
 // Get or Put call (or its initialisation), and no object obtained by Get is stored into a field, a package
 // variable, a map, a slice element or a channel, captured by a function literal or returned: whoever takes an object
